@@ -193,22 +193,31 @@ def run(ctx):
     binp = lc.looph()
     gate = run_gate(binp, ctx.seed)
     failures, mismatches = [], []
-    for r in gate:
+    suspects = [r for r in gate if gate_oracle(r)]
+    for r in suspects[:6]:
+        if len(failures) >= 3:
+            break
         why = gate_oracle(r)
-        if why and confirm_gate(binp, ctx.seed, r, lambda x: bool(gate_oracle(x))):
+        if confirm_gate(binp, ctx.seed, r, lambda x: bool(gate_oracle(x))):
             failures.append({"case": {"kind": "gate", "scenario": r["scen"]}, "why": why, "observations": r["obs"], "execs": r["execs"],
+                             "failing_scenarios_in_this_run": len(suspects),
                              "how": "looph gate: the real loop single-stepped through a gated JobQueue; API calls placed at the given position"})
     if lc.model_available():
         bad, out = replay_in_model(gate)
         if bad is None:
             mismatches.append({"error": "model evaluation failed", "detail": out[-1500:]})
         else:
-            for b in bad:
+            for b in bad[:6]:
+                if len(mismatches) >= 3:
+                    break
                 rr = run_gate(binp, ctx.seed + 7, only=b["scenario"]["id"])
                 bad2, _ = replay_in_model(rr)
                 if bad2:
+                    b["mismatching_scenarios_in_this_run"] = len(bad)
                     mismatches.append(b)
     nfree = 240 if ctx.tier == "quick" else 3000
+    if len(failures) >= 3:
+        nfree = 24   # the gate scenarios already show the violation
     free = run_free(binp, ctx.seed, nfree)
     lost = [r for r in free if r["delay_us"] < 0]
     for r in lost[:3]:
@@ -217,10 +226,9 @@ def run(ctx):
                          "how": "looph free: queue wrapper sleeping inside Size/Head, far head, then a head-moving API call"})
     if ctx.tier == "thorough":
         for k in range(1, 4):
-            for r in run_gate(binp, ctx.seed + 100 * k):
-                why = gate_oracle(r)
-                if why and confirm_gate(binp, ctx.seed, r, lambda x: bool(gate_oracle(x))):
-                    failures.append({"case": {"kind": "gate", "scenario": r["scen"]}, "why": why, "observations": r["obs"]})
+            for r in [x for x in run_gate(binp, ctx.seed + 100 * k) if gate_oracle(x)][:3]:
+                if len(failures) < 3 and confirm_gate(binp, ctx.seed, r, lambda x: bool(gate_oracle(x))):
+                    failures.append({"case": {"kind": "gate", "scenario": r["scen"]}, "why": gate_oracle(r), "observations": r["obs"]})
 
     def search():
         found = []
